@@ -70,6 +70,10 @@ func c10() {
 			cc.FlagNames = append(cc.FlagNames, "log")
 		}
 		cc.Env = vlib.RuntimeKnobsGC[(i/3)%len(vlib.RuntimeKnobsGC)]
+		if i%9 == 5 {
+			cc.GCSpray = 1 + (i/9)%3
+			run.Count("children_with_gc_and_allocation_spray_before_the_seccomp_call", 1)
+		}
 		variant := ""
 		if i%raceEvery == 1 {
 			variant = "race"
